@@ -39,80 +39,70 @@ theorem pack_s16le_generated (b e p : BitVec 64) (v : BitVec 16) (mem : Gen.Mem)
     (rf_pack_s16le b e p v mem).pack_p = p + 2#64 := by
   unfold wfPk at hwf
   unfold rf_pack_s16le
-  ackermann mem
-  bv_decide (config := { timeout := 300 })
+  first | bv_decide (config := { timeout := 300 }) | (ackermann mem; bv_decide (config := { timeout := 300 }))
 
 theorem pack_s16le_generated_mem (b e p : BitVec 64) (v : BitVec 16) (mem : Gen.Mem) (hwf : wfPk b e p = true) (a : BitVec 64) :
     (rf_pack_s16le b e p v mem).mem a = (if fitsBV p e 2#64 then (if a = p + 1#64 then byteAt (encS16le v) 1 else if a = p then byteAt (encS16le v) 0 else mem a) else mem a) := by
   unfold wfPk at hwf
   unfold rf_pack_s16le fitsBV
   simp only [Mem.ite_app, Mem.store_app, byteAt, encS16le, b8, List.getD_cons_zero, List.getD_cons_succ, UInt8.toBitVec_ofBitVec]
-  ackermann mem
-  bv_decide (config := { timeout := 300 })
+  first | bv_decide (config := { timeout := 300 }) | (ackermann mem; bv_decide (config := { timeout := 300 }))
 
 theorem pack_u16be_generated (b e p : BitVec 64) (v : BitVec 16) (mem : Gen.Mem) (hwf : wfPk b e p = true) :
     (rf_pack_u16be b e p v mem).ub = false ∧ (rf_pack_u16be b e p v mem).exh = false ∧ (rf_pack_u16be b e p v mem).pack_basep = b ∧ (rf_pack_u16be b e p v mem).pack_endp = e ∧
     (rf_pack_u16be b e p v mem).pack_p = p + 2#64 := by
   unfold wfPk at hwf
   unfold rf_pack_u16be
-  ackermann mem
-  bv_decide (config := { timeout := 300 })
+  first | bv_decide (config := { timeout := 300 }) | (ackermann mem; bv_decide (config := { timeout := 300 }))
 
 theorem pack_u16be_generated_mem (b e p : BitVec 64) (v : BitVec 16) (mem : Gen.Mem) (hwf : wfPk b e p = true) (a : BitVec 64) :
     (rf_pack_u16be b e p v mem).mem a = (if fitsBV p e 2#64 then (if a = p + 1#64 then byteAt (encU16be v) 1 else if a = p then byteAt (encU16be v) 0 else mem a) else mem a) := by
   unfold wfPk at hwf
   unfold rf_pack_u16be fitsBV
   simp only [Mem.ite_app, Mem.store_app, byteAt, encU16be, b8, List.getD_cons_zero, List.getD_cons_succ, UInt8.toBitVec_ofBitVec]
-  ackermann mem
-  bv_decide (config := { timeout := 300 })
+  first | bv_decide (config := { timeout := 300 }) | (ackermann mem; bv_decide (config := { timeout := 300 }))
 
 theorem pack_u16le_generated (b e p : BitVec 64) (v : BitVec 16) (mem : Gen.Mem) (hwf : wfPk b e p = true) :
     (rf_pack_u16le b e p v mem).ub = false ∧ (rf_pack_u16le b e p v mem).exh = false ∧ (rf_pack_u16le b e p v mem).pack_basep = b ∧ (rf_pack_u16le b e p v mem).pack_endp = e ∧
     (rf_pack_u16le b e p v mem).pack_p = p + 2#64 := by
   unfold wfPk at hwf
   unfold rf_pack_u16le
-  ackermann mem
-  bv_decide (config := { timeout := 300 })
+  first | bv_decide (config := { timeout := 300 }) | (ackermann mem; bv_decide (config := { timeout := 300 }))
 
 theorem pack_u16le_generated_mem (b e p : BitVec 64) (v : BitVec 16) (mem : Gen.Mem) (hwf : wfPk b e p = true) (a : BitVec 64) :
     (rf_pack_u16le b e p v mem).mem a = (if fitsBV p e 2#64 then (if a = p + 1#64 then byteAt (encU16le v) 1 else if a = p then byteAt (encU16le v) 0 else mem a) else mem a) := by
   unfold wfPk at hwf
   unfold rf_pack_u16le fitsBV
   simp only [Mem.ite_app, Mem.store_app, byteAt, encU16le, b8, List.getD_cons_zero, List.getD_cons_succ, UInt8.toBitVec_ofBitVec]
-  ackermann mem
-  bv_decide (config := { timeout := 300 })
+  first | bv_decide (config := { timeout := 300 }) | (ackermann mem; bv_decide (config := { timeout := 300 }))
 
 theorem pack_s32le_generated (b e p : BitVec 64) (v : BitVec 32) (mem : Gen.Mem) (hwf : wfPk b e p = true) :
     (rf_pack_s32le b e p v mem).ub = false ∧ (rf_pack_s32le b e p v mem).exh = false ∧ (rf_pack_s32le b e p v mem).pack_basep = b ∧ (rf_pack_s32le b e p v mem).pack_endp = e ∧
     (rf_pack_s32le b e p v mem).pack_p = p + 4#64 := by
   unfold wfPk at hwf
   unfold rf_pack_s32le
-  ackermann mem
-  bv_decide (config := { timeout := 300 })
+  first | bv_decide (config := { timeout := 300 }) | (ackermann mem; bv_decide (config := { timeout := 300 }))
 
 theorem pack_s32le_generated_mem (b e p : BitVec 64) (v : BitVec 32) (mem : Gen.Mem) (hwf : wfPk b e p = true) (a : BitVec 64) :
     (rf_pack_s32le b e p v mem).mem a = (if fitsBV p e 4#64 then (if a = p + 3#64 then byteAt (encS32le v) 3 else if a = p + 2#64 then byteAt (encS32le v) 2 else if a = p + 1#64 then byteAt (encS32le v) 1 else if a = p then byteAt (encS32le v) 0 else mem a) else mem a) := by
   unfold wfPk at hwf
   unfold rf_pack_s32le fitsBV
   simp only [Mem.ite_app, Mem.store_app, byteAt, encS32le, b8, List.getD_cons_zero, List.getD_cons_succ, UInt8.toBitVec_ofBitVec]
-  ackermann mem
-  bv_decide (config := { timeout := 300 })
+  first | bv_decide (config := { timeout := 300 }) | (ackermann mem; bv_decide (config := { timeout := 300 }))
 
 theorem pack_u32le_generated (b e p : BitVec 64) (v : BitVec 32) (mem : Gen.Mem) (hwf : wfPk b e p = true) :
     (rf_pack_u32le b e p v mem).ub = false ∧ (rf_pack_u32le b e p v mem).exh = false ∧ (rf_pack_u32le b e p v mem).pack_basep = b ∧ (rf_pack_u32le b e p v mem).pack_endp = e ∧
     (rf_pack_u32le b e p v mem).pack_p = p + 4#64 := by
   unfold wfPk at hwf
   unfold rf_pack_u32le
-  ackermann mem
-  bv_decide (config := { timeout := 300 })
+  first | bv_decide (config := { timeout := 300 }) | (ackermann mem; bv_decide (config := { timeout := 300 }))
 
 theorem pack_u32le_generated_mem (b e p : BitVec 64) (v : BitVec 32) (mem : Gen.Mem) (hwf : wfPk b e p = true) (a : BitVec 64) :
     (rf_pack_u32le b e p v mem).mem a = (if fitsBV p e 4#64 then (if a = p + 3#64 then byteAt (encU32le v) 3 else if a = p + 2#64 then byteAt (encU32le v) 2 else if a = p + 1#64 then byteAt (encU32le v) 1 else if a = p then byteAt (encU32le v) 0 else mem a) else mem a) := by
   unfold wfPk at hwf
   unfold rf_pack_u32le fitsBV
   simp only [Mem.ite_app, Mem.store_app, byteAt, encU32le, b8, List.getD_cons_zero, List.getD_cons_succ, UInt8.toBitVec_ofBitVec]
-  ackermann mem
-  bv_decide (config := { timeout := 300 })
+  first | bv_decide (config := { timeout := 300 }) | (ackermann mem; bv_decide (config := { timeout := 300 }))
 
 theorem unpack_char_generated (b e p : BitVec 64) (mem : Gen.Mem) (hwf : wfPk b e p = true) :
     (rf_unpack_char b e p mem).ub = false ∧ (rf_unpack_char b e p mem).exh = false ∧ (rf_unpack_char b e p mem).pack_basep = b ∧ (rf_unpack_char b e p mem).pack_endp = e ∧
@@ -120,8 +110,7 @@ theorem unpack_char_generated (b e p : BitVec 64) (mem : Gen.Mem) (hwf : wfPk b 
   unfold wfPk at hwf
   unfold rf_unpack_char fitsBV
   simp only [dec16, dec32, UInt8.toBitVec_ofBitVec]
-  ackermann mem
-  bv_decide (config := { timeout := 300 })
+  first | bv_decide (config := { timeout := 300 }) | (ackermann mem; bv_decide (config := { timeout := 300 }))
 
 theorem unpack_char_generated_mem (b e p : BitVec 64) (mem : Gen.Mem) : (rf_unpack_char b e p mem).mem = mem := by
   unfold rf_unpack_char
@@ -133,8 +122,7 @@ theorem unpack_s8_generated (b e p : BitVec 64) (mem : Gen.Mem) (hwf : wfPk b e 
   unfold wfPk at hwf
   unfold rf_unpack_s8 fitsBV
   simp only [dec16, dec32, UInt8.toBitVec_ofBitVec]
-  ackermann mem
-  bv_decide (config := { timeout := 300 })
+  first | bv_decide (config := { timeout := 300 }) | (ackermann mem; bv_decide (config := { timeout := 300 }))
 
 theorem unpack_s8_generated_mem (b e p : BitVec 64) (mem : Gen.Mem) : (rf_unpack_s8 b e p mem).mem = mem := by
   unfold rf_unpack_s8
@@ -146,8 +134,7 @@ theorem unpack_u8_generated (b e p : BitVec 64) (mem : Gen.Mem) (hwf : wfPk b e 
   unfold wfPk at hwf
   unfold rf_unpack_u8 fitsBV
   simp only [dec16, dec32, UInt8.toBitVec_ofBitVec]
-  ackermann mem
-  bv_decide (config := { timeout := 300 })
+  first | bv_decide (config := { timeout := 300 }) | (ackermann mem; bv_decide (config := { timeout := 300 }))
 
 theorem unpack_u8_generated_mem (b e p : BitVec 64) (mem : Gen.Mem) : (rf_unpack_u8 b e p mem).mem = mem := by
   unfold rf_unpack_u8
@@ -159,8 +146,7 @@ theorem unpack_u16le_generated (b e p : BitVec 64) (mem : Gen.Mem) (hwf : wfPk b
   unfold wfPk at hwf
   unfold rf_unpack_u16le fitsBV
   simp only [dec16, dec32, UInt8.toBitVec_ofBitVec]
-  ackermann mem
-  bv_decide (config := { timeout := 300 })
+  first | bv_decide (config := { timeout := 300 }) | (ackermann mem; bv_decide (config := { timeout := 300 }))
 
 theorem unpack_u16le_generated_mem (b e p : BitVec 64) (mem : Gen.Mem) : (rf_unpack_u16le b e p mem).mem = mem := by
   unfold rf_unpack_u16le
@@ -172,8 +158,7 @@ theorem unpack_u32le_generated (b e p : BitVec 64) (mem : Gen.Mem) (hwf : wfPk b
   unfold wfPk at hwf
   unfold rf_unpack_u32le fitsBV
   simp only [dec16, dec32, UInt8.toBitVec_ofBitVec]
-  ackermann mem
-  bv_decide (config := { timeout := 300 })
+  first | bv_decide (config := { timeout := 300 }) | (ackermann mem; bv_decide (config := { timeout := 300 }))
 
 theorem unpack_u32le_generated_mem (b e p : BitVec 64) (mem : Gen.Mem) : (rf_unpack_u32le b e p mem).mem = mem := by
   unfold rf_unpack_u32le
@@ -206,8 +191,7 @@ theorem pack_bytes_generated (b e p src : BitVec 64) (sz : BitVec 32) (mem : Gen
     (rf_pack_bytes b e p src sz mem).pack_p = p + sz.setWidth 64 := by
   unfold wfPk at hwf
   unfold rf_pack_bytes
-  ackermann mem
-  bv_decide (config := { timeout := 300 })
+  first | bv_decide (config := { timeout := 300 }) | (ackermann mem; bv_decide (config := { timeout := 300 }))
 
 /-- `memcpy(q, p, sz)` / `memset(q, 0, sz)` iff the item fits, address by address (all inputs, `bv_decide`) -/
 theorem pack_bytes_generated_pt (b e p src : BitVec 64) (sz : BitVec 32) (mem : Gen.Mem) (hwf : wfPk b e p = true) (a : BitVec 64) :
@@ -219,8 +203,7 @@ theorem pack_bytes_generated_pt (b e p src : BitVec 64) (sz : BitVec 32) (mem : 
   unfold wfPk at hwf
   unfold rf_pack_bytes fitsBV
   simp only [Mem.ite_app, Mem.fill_app_bv, Mem.copy_app_bv]
-  ackermann mem
-  bv_decide (config := { timeout := 300 })
+  first | bv_decide (config := { timeout := 300 }) | (ackermann mem; bv_decide (config := { timeout := 300 }))
 
 theorem pack_bytes_generated_mem (b e p src : BitVec 64) (sz : BitVec 32) (mem : Gen.Mem) (hwf : wfPk b e p = true) :
     (rf_pack_bytes b e p src sz mem).mem =
@@ -237,8 +220,7 @@ theorem unpack_bytes_generated (b e p dst : BitVec 64) (sz : BitVec 32) (mem : G
     (rf_unpack_bytes b e p dst sz mem).pack_p = p + sz.setWidth 64 := by
   unfold wfPk at hwf
   unfold rf_unpack_bytes
-  ackermann mem
-  bv_decide (config := { timeout := 300 })
+  first | bv_decide (config := { timeout := 300 }) | (ackermann mem; bv_decide (config := { timeout := 300 }))
 
 /-- destination = the item if it fits, zeros if not, untouched when NULL; address by address (all inputs, `bv_decide`) -/
 theorem unpack_bytes_generated_pt (b e p dst : BitVec 64) (sz : BitVec 32) (mem : Gen.Mem) (hwf : wfPk b e p = true) (a : BitVec 64) :
@@ -249,8 +231,7 @@ theorem unpack_bytes_generated_pt (b e p dst : BitVec 64) (sz : BitVec 32) (mem 
   unfold wfPk at hwf
   unfold rf_unpack_bytes fitsBV
   simp only [Mem.ite_app, Mem.fill_app_bv, Mem.copy_app_bv]
-  ackermann mem
-  bv_decide (config := { timeout := 300 })
+  first | bv_decide (config := { timeout := 300 }) | (ackermann mem; bv_decide (config := { timeout := 300 }))
 
 theorem unpack_bytes_generated_mem (b e p dst : BitVec 64) (sz : BitVec 32) (mem : Gen.Mem) (hwf : wfPk b e p = true) :
     (rf_unpack_bytes b e p dst sz mem).mem =
